@@ -173,7 +173,27 @@ class Fold(ast.NodeTransformer):
                                 return self.generic_visit(a_)
                         self.changed = True
                         return ast.copy_location(_S().visit(e_), n)
+        # f(.., **d)  with d a local bound once to the empty display {} and never stored into: nothing is passed
+        if any(k.arg is None and isinstance(k.value, ast.Name) for k in n.keywords) and self.f is not None:
+            keep_ = []
+            for k in n.keywords:
+                if k.arg is None and isinstance(k.value, ast.Name):
+                    nm_ = k.value.id
+                    defs_ = [x for x in ast.walk(self.f.node) if isinstance(x, ast.Assign) and len(x.targets) == 1 and isinstance(x.targets[0], ast.Name) and x.targets[0].id == nm_]
+                    stores_ = sum(1 for x in ast.walk(self.f.node) if isinstance(x, ast.Name) and x.id == nm_ and isinstance(x.ctx, (ast.Store, ast.Del)))
+                    touched_ = any((isinstance(x, ast.Subscript) and isinstance(x.ctx, (ast.Store, ast.Del)) and isinstance(x.value, ast.Name) and x.value.id == nm_) or
+                                   (isinstance(x, ast.Attribute) and isinstance(x.value, ast.Name) and x.value.id == nm_) for x in ast.walk(self.f.node))
+                    a__ = self.f.node.args
+                    is_param_ = nm_ in {p_.arg for p_ in a__.posonlyargs + a__.args + a__.kwonlyargs} or (a__.kwarg is not None and a__.kwarg.arg == nm_) or (a__.vararg is not None and a__.vararg.arg == nm_)
+                    if len(defs_) == 1 and stores_ == 1 and not touched_ and not is_param_ and isinstance(defs_[0].value, ast.Dict) and not defs_[0].value.keys:
+                        self.changed = True
+                        continue
+                keep_.append(k)
+            n.keywords = keep_
         # f(**{"a": x, "b": y})  ->  f(a=x, b=y)     (a display with constant identifier keys, no repeated keyword)
+        if any(k.arg is None and isinstance(k.value, ast.Dict) and not k.value.keys for k in n.keywords):
+            n.keywords = [k for k in n.keywords if not (k.arg is None and isinstance(k.value, ast.Dict) and not k.value.keys)]
+            self.changed = True
         if any(k.arg is None and isinstance(k.value, ast.Dict) for k in n.keywords):
             kws, ok_ = [], True
             for k in n.keywords:
@@ -446,6 +466,120 @@ class Fold(ast.NodeTransformer):
         n.values = vals
         return n
 
+    def _unroll_comprehension(self, n):
+        """{K(x): V(x) for x in TABLE if C(x)} / [E(x) for x in TABLE if C(x)]  over a constant table (a module / class level display of constants or
+        of constant record constructions, a literal display): the display of the instances, each folded; a filter must fold to a constant"""
+        if self.repo is None or len(n.generators) != 1 or n.generators[0].is_async or not isinstance(n.generators[0].target, ast.Name):
+            return None
+        g = n.generators[0]
+        if isinstance(g.iter, ast.Name) and g.iter.id in self._module_names():
+            return None
+        try:
+            rows = _rows(self.repo, self.f, g.iter)
+        except Exception:
+            rows = None
+        if not rows or len(rows) > 24 or any(len(r) != 1 for r in rows):
+            return None
+        x = g.target.id
+        out = []
+        for (row,) in rows:
+            sub = _Sub({x: row}, {})
+            keep = True
+            for c in g.ifs:
+                t = Fold(self.repo, self.f).visit(sub.visit(copy.deepcopy(c)))
+                if isinstance(t, ast.Constant) and isinstance(t.value, bool):
+                    keep = keep and t.value
+                else:
+                    return None
+            if not keep:
+                continue
+            if isinstance(n, ast.DictComp):
+                k_ = Fold(self.repo, self.f).visit(sub.visit(copy.deepcopy(n.key)))
+                v_ = Fold(self.repo, self.f).visit(sub.visit(copy.deepcopy(n.value)))
+                out.append((k_, v_))
+            else:
+                out.append(Fold(self.repo, self.f).visit(sub.visit(copy.deepcopy(n.elt))))
+        if isinstance(n, ast.DictComp):
+            if not all(isinstance(k_, ast.Constant) for k_, _ in out) or len({k_.value for k_, _ in out}) != len(out):
+                return None
+            return ast.Dict(keys=[k_ for k_, _ in out], values=[v_ for _, v_ in out])
+        return ast.List(elts=out, ctx=ast.Load())
+
+    def _destructure_zip_rows(self, n):
+        """(.. f(*row) .. row[1] .. for row in zip(A, B, C))  ->  (.. f(row__0, row__1, row__2) .. row__1 .. for row__0, row__1, row__2 in zip(A, B, C))
+        when the row variable is read only starred into a call or with a constant index"""
+        if len(n.generators) != 1:
+            return False
+        g = n.generators[0]
+        if not (isinstance(g.target, ast.Name) and isinstance(g.iter, ast.Call) and isinstance(g.iter.func, ast.Name) and g.iter.func.id == "zip" and not g.iter.keywords
+                and 2 <= len(g.iter.args) <= 8 and not any(isinstance(a, ast.Starred) for a in g.iter.args)):
+            return False
+        x, k = g.target.id, len(g.iter.args)
+        parts = ([n.key, n.value] if isinstance(n, ast.DictComp) else [n.elt]) + list(g.ifs)
+        par = {}
+        for p_ in parts:
+            for y in ast.walk(p_):
+                for c in ast.iter_child_nodes(y):
+                    par[c] = y
+        reads = [y for p_ in parts for y in ast.walk(p_) if isinstance(y, ast.Name) and y.id == x]
+        if not reads:
+            return False
+        for y in reads:
+            p_ = par.get(y)
+            if isinstance(p_, ast.Starred) and isinstance(par.get(p_), ast.Call) and p_ in par[p_].args:
+                continue
+            if isinstance(p_, ast.Subscript) and p_.value is y and isinstance(p_.slice, ast.Constant) and isinstance(p_.slice.value, int) and 0 <= p_.slice.value < k and isinstance(p_.ctx, ast.Load):
+                continue
+            return False
+        names = [f"{x}__z{i}" for i in range(k)]
+
+        class R(ast.NodeTransformer):
+            def visit_Call(self, c):
+                self.generic_visit(c)
+                args = []
+                for a in c.args:
+                    if isinstance(a, ast.Starred) and isinstance(a.value, ast.Name) and a.value.id == x:
+                        args += [ast.Name(id=nm, ctx=ast.Load()) for nm in names]
+                    else:
+                        args.append(a)
+                c.args = args
+                return c
+
+            def visit_Subscript(self, s_):
+                self.generic_visit(s_)
+                if isinstance(s_.value, ast.Name) and s_.value.id == x and isinstance(s_.slice, ast.Constant):
+                    return ast.copy_location(ast.Name(id=names[s_.slice.value], ctx=ast.Load()), s_)
+                return s_
+        if isinstance(n, ast.DictComp):
+            n.key, n.value = R().visit(n.key), R().visit(n.value)
+        else:
+            n.elt = R().visit(n.elt)
+        g.ifs = [R().visit(c) for c in g.ifs]
+        g.target = ast.Tuple(elts=[ast.Name(id=nm, ctx=ast.Store()) for nm in names], ctx=ast.Store())
+        return True
+
+    def visit_GeneratorExp(self, n):
+        self.generic_visit(n)
+        if self._destructure_zip_rows(n):
+            self.changed = True
+        return n
+
+    def visit_ListComp(self, n):
+        self.generic_visit(n)
+        if self._destructure_zip_rows(n):
+            self.changed = True
+        return n
+
+    def visit_DictComp(self, n):
+        self.generic_visit(n)
+        if self._destructure_zip_rows(n):
+            self.changed = True
+        r = self._unroll_comprehension(n)
+        if r is not None:
+            self.changed = True
+            return ast.copy_location(r, n)
+        return n
+
     def visit_IfExp(self, n):
         self.generic_visit(n)
         if isinstance(n.test, ast.Constant) and isinstance(n.test.value, (bool, type(None))):
@@ -505,6 +639,21 @@ class Fold(ast.NodeTransformer):
 
     def visit_Assign(self, n):
         self.generic_visit(n)
+        # first, *rest = TABLE / ("a", "b", "c")   with TABLE a module-level tuple of constants: first = "a"; rest = ["b", "c"]
+        if len(n.targets) == 1 and isinstance(n.targets[0], (ast.Tuple, ast.List)) and n.targets[0].elts and isinstance(n.targets[0].elts[-1], ast.Starred) \
+                and all(isinstance(t, ast.Name) for t in n.targets[0].elts[:-1]) and isinstance(n.targets[0].elts[-1].value, ast.Name):
+            v = n.value
+            if self.repo is not None and isinstance(v, ast.Name) and v.id not in self._module_names():
+                cv = self.repo.const_value(self.f.mod, v.id)
+                if isinstance(cv, (ast.Tuple, ast.List)) and all(isinstance(x, ast.Constant) for x in cv.elts):
+                    v = cv
+            k = len(n.targets[0].elts) - 1
+            if isinstance(v, (ast.Tuple, ast.List)) and len(v.elts) >= k and all(isinstance(x, ast.Constant) for x in v.elts):
+                self.changed = True
+                out = [ast.copy_location(ast.Assign(targets=[ast.Name(id=t.id, ctx=ast.Store())], value=copy.deepcopy(e)), n) for t, e in zip(n.targets[0].elts[:-1], v.elts)]
+                out.append(ast.copy_location(ast.Assign(targets=[ast.Name(id=n.targets[0].elts[-1].value.id, ctx=ast.Store())],
+                                                        value=ast.List(elts=[copy.deepcopy(e) for e in v.elts[k:]], ctx=ast.Load())), n))
+                return out
         # a, b, c = K(x, y, z)   with K a NamedTuple record: the display of its arguments is unpacked
         if len(n.targets) == 1 and isinstance(n.targets[0], (ast.Tuple, ast.List)) and not any(isinstance(t, ast.Starred) for t in n.targets[0].elts):
             d = self._record_display(n.value)
@@ -513,8 +662,58 @@ class Fold(ast.NodeTransformer):
                 self.changed = True
         return n
 
+    def _destructure_zip_loop(self, n):
+        """for row in zip(A, B, C): .. f(*row) .. row[1] ..   ->   for row__0, row__1, row__2 in zip(A, B, C): .. f(row__0, row__1, row__2) .. row__1 ..
+        (row read only starred into a call or with a constant index, never re-bound, not read after the loop)"""
+        if not (isinstance(n.target, ast.Name) and isinstance(n.iter, ast.Call) and isinstance(n.iter.func, ast.Name) and n.iter.func.id == "zip" and not n.iter.keywords
+                and 2 <= len(n.iter.args) <= 8 and not any(isinstance(a, ast.Starred) for a in n.iter.args)) or n.orelse or self.f is None:
+            return False
+        x, k = n.target.id, len(n.iter.args)
+        inside = {id(y) for b in n.body for y in ast.walk(b)}
+        every = [y for y in ast.walk(self.f.node) if isinstance(y, ast.Name) and y.id == x and y is not n.target]
+        if not every or any(id(y) not in inside or not isinstance(y.ctx, ast.Load) for y in every):
+            return False
+        par = {}
+        for b in n.body:
+            for y in ast.walk(b):
+                for c in ast.iter_child_nodes(y):
+                    par[c] = y
+        for y in every:
+            p_ = par.get(y)
+            if isinstance(p_, ast.Starred) and isinstance(par.get(p_), ast.Call) and p_ in par[p_].args:
+                continue
+            if isinstance(p_, ast.Subscript) and p_.value is y and isinstance(p_.slice, ast.Constant) and isinstance(p_.slice.value, int) and 0 <= p_.slice.value < k and isinstance(p_.ctx, ast.Load):
+                continue
+            return False
+        names = [f"{x}__z{i}" for i in range(k)]
+        if any(isinstance(y, ast.Name) and y.id in names for y in ast.walk(self.f.node)):
+            return False
+
+        class R(ast.NodeTransformer):
+            def visit_Call(self, c):
+                self.generic_visit(c)
+                args = []
+                for a in c.args:
+                    if isinstance(a, ast.Starred) and isinstance(a.value, ast.Name) and a.value.id == x:
+                        args += [ast.Name(id=nm, ctx=ast.Load()) for nm in names]
+                    else:
+                        args.append(a)
+                c.args = args
+                return c
+
+            def visit_Subscript(self, s_):
+                self.generic_visit(s_)
+                if isinstance(s_.value, ast.Name) and s_.value.id == x and isinstance(s_.slice, ast.Constant):
+                    return ast.copy_location(ast.Name(id=names[s_.slice.value], ctx=ast.Load()), s_)
+                return s_
+        n.body = [R().visit(b) for b in n.body]
+        n.target = ast.Tuple(elts=[ast.Name(id=nm, ctx=ast.Store()) for nm in names], ctx=ast.Store())
+        return True
+
     def visit_For(self, n):
         self.generic_visit(n)
+        if self._destructure_zip_loop(n):
+            self.changed = True
         d = self._record_display(n.iter)
         if d is not None:
             n.iter = d
@@ -573,6 +772,17 @@ class Fold(ast.NodeTransformer):
 
     def visit_Subscript(self, n):
         self.generic_visit(n)
+        # P[a:][k] is P[a + k] ; P[a:][b:] is P[a + b:]     (a, b, k non-negative integer constants: the same element / the same tail)
+        if isinstance(n.value, ast.Subscript) and isinstance(n.value.slice, ast.Slice) and n.value.slice.upper is None and n.value.slice.step is None \
+                and isinstance(n.value.slice.lower, ast.Constant) and isinstance(n.value.slice.lower.value, int) and n.value.slice.lower.value >= 0 and isinstance(n.ctx, ast.Load):
+            a_ = n.value.slice.lower.value
+            if isinstance(n.slice, ast.Constant) and isinstance(n.slice.value, int) and not isinstance(n.slice.value, bool) and n.slice.value >= 0:
+                self.changed = True
+                return ast.copy_location(ast.Subscript(value=n.value.value, slice=ast.Constant(value=a_ + n.slice.value), ctx=ast.Load()), n)
+            if isinstance(n.slice, ast.Slice) and n.slice.upper is None and n.slice.step is None and isinstance(n.slice.lower, ast.Constant) and isinstance(n.slice.lower.value, int) \
+                    and n.slice.lower.value >= 0:
+                self.changed = True
+                return ast.copy_location(ast.Subscript(value=n.value.value, slice=ast.Slice(lower=ast.Constant(value=a_ + n.slice.lower.value), upper=None, step=None), ctx=ast.Load()), n)
         # X[KEY_NAME] with KEY_NAME a module-level string constant: the key itself
         if isinstance(n.slice, ast.Name):
             ms = self._module_string(n.slice)
@@ -3351,7 +3561,7 @@ def scalarise_conditional_records(repo, f):
     return False
 
 
-def split_conditional_tuples(fnode, counter):
+def split_conditional_tuples(fnode, counter, repo=None, mod=None):
     """if c: ..; t = (a0, a1, ..)  else: ..; t = (b0, b1, ..)      (the only two bindings of t: one direct statement in each arm, displays of one length)
     ->  if c: ..; t__0 = a0; t__1 = a1; ..  else: ..; t__0 = b0; ..      followed by   t = (t__0, t__1, ..)
     so that t is bound once, to a display of names (what it holds is then read position by position by the tuple passes)"""
@@ -3361,9 +3571,37 @@ def split_conditional_tuples(fnode, counter):
             binds[x.id] = binds.get(x.id, 0) + 1
     all_names = {x.id for x in ast.walk(fnode) if isinstance(x, ast.Name)}
 
+    rec_of = {}
+
+    def as_tuple(st):
+        """the display a binding holds: a tuple display, or - for a construction of a plain record class - its arguments in field order"""
+        v = st.value
+        if isinstance(v, ast.Tuple) and v.elts and not any(isinstance(e, ast.Starred) for e in v.elts):
+            return v
+        if repo is not None and isinstance(v, ast.Call) and isinstance(v.func, ast.Name):
+            from .normalize import record_fields, complete_record_call
+            fl = record_fields(repo, mod, v.func.id)
+            if fl:
+                complete_record_call(repo, mod, v)
+                if not any(isinstance(a_, ast.Starred) for a_ in v.args) and not any(k_.arg is None for k_ in v.keywords) and len(v.args) + len(v.keywords) == len(fl):
+                    d_ = dict(zip(fl, v.args))
+                    d_.update({k_.arg: k_.value for k_ in v.keywords})
+                    if set(d_) == set(fl):
+                        t_ = ast.Tuple(elts=[d_[x] for x in fl], ctx=ast.Load())
+                        rec_of[id(t_)] = (v.func.id, fl)
+                        return t_
+        return None
+
     def tuple_binds(block):
-        return {st.targets[0].id: st for st in block if isinstance(st, ast.Assign) and len(st.targets) == 1 and isinstance(st.targets[0], ast.Name)
-                and isinstance(st.value, ast.Tuple) and st.value.elts and not any(isinstance(e, ast.Starred) for e in st.value.elts)}
+        out = {}
+        for st in block:
+            if isinstance(st, ast.Assign) and len(st.targets) == 1 and isinstance(st.targets[0], ast.Name):
+                t_ = as_tuple(st)
+                if t_ is not None:
+                    st2 = ast.Assign(targets=st.targets, value=t_, lineno=st.lineno, col_offset=0)
+                    st2._orig = st
+                    out[st.targets[0].id] = st2
+        return out
 
     def rewrite(stmts):
         for st in stmts:
@@ -3381,6 +3619,9 @@ def split_conditional_tuples(fnode, counter):
             for t in sorted(set(a) & set(b)):
                 if binds.get(t) != 2 or t in _CAPTURED or len(a[t].value.elts) != len(b[t].value.elts):
                     continue
+                ra, rb = rec_of.get(id(a[t].value)), rec_of.get(id(b[t].value))
+                if (ra is None) != (rb is None) or (ra is not None and ra != rb):
+                    continue                # a record in one arm, something else in the other
                 n = len(a[t].value.elts)
                 k = counter[0]
                 names = [f"{t}__c{k}_{j}" for j in range(n)]
@@ -3390,7 +3631,7 @@ def split_conditional_tuples(fnode, counter):
                 # the fresh names are bound nowhere else, so the display of them can stand wherever t is read
                 later_ids = {id(x) for y in stmts[i + 1:] for x in ast.walk(y)}
                 for blk, asg in ((st.body, a[t]), (st.orelse, b[t])):
-                    j_ = [q for q, y in enumerate(blk) if y is asg][0]
+                    j_ = [q for q, y in enumerate(blk) if y is asg._orig][0]
                     later_ids |= {id(x) for y in blk[j_ + 1:] for x in ast.walk(y)}
                 loads = [x for x in ast.walk(fnode) if isinstance(x, ast.Name) and x.id == t and isinstance(x.ctx, ast.Load)]
                 if not loads or any(id(x) not in later_ids for x in loads):
@@ -3403,13 +3644,22 @@ def split_conditional_tuples(fnode, counter):
                 for j in same:
                     names[j] = a[t].value.elts[j].id
                 for blk, asg in ((st.body, a[t]), (st.orelse, b[t])):
-                    j_ = [q for q, y in enumerate(blk) if y is asg][0]
+                    j_ = [q for q, y in enumerate(blk) if y is asg._orig][0]
                     blk[j_:j_ + 1] = [ast.Assign(targets=[ast.Name(id=nm, ctx=ast.Store())], value=e, lineno=asg.lineno, col_offset=0)
                                       for j, (nm, e) in enumerate(zip(names, asg.value.elts)) if j not in same] or [ast.Pass()]
 
                 class R(ast.NodeTransformer):
+                    def visit_Attribute(self, x):
+                        # t.field of a record: the name that holds the field
+                        if ra is not None and isinstance(x.value, ast.Name) and x.value.id == t and isinstance(x.ctx, ast.Load) and x.attr in ra[1]:
+                            return ast.copy_location(ast.Name(id=names[ra[1].index(x.attr)], ctx=ast.Load()), x)
+                        return self.generic_visit(x)
+
                     def visit_Name(self, x):
                         if x.id == t and isinstance(x.ctx, ast.Load):
+                            if ra is not None:
+                                return ast.copy_location(ast.Call(func=ast.Name(id=ra[0], ctx=ast.Load()), args=[],
+                                                                  keywords=[ast.keyword(arg=fl_, value=ast.Name(id=nm, ctx=ast.Load())) for fl_, nm in zip(ra[1], names)]), x)
                             return ast.copy_location(ast.Tuple(elts=[ast.Name(id=nm, ctx=ast.Load()) for nm in names], ctx=ast.Load()), x)
                         return x
                 for y in stmts:
@@ -3703,6 +3953,24 @@ def star_unpack_of_lists(fnode):
                 sub = getattr(st, fld, None)
                 if isinstance(sub, list) and sub and isinstance(sub[0], ast.stmt) and not isinstance(st, (ast.FunctionDef, ast.AsyncFunctionDef, ast.ClassDef)):
                     setattr(st, fld, rewrite(sub))
+            # first, *rest = self.attr / param.attr   (a stored sequence - assumption A-path-is-sequence: an attribute unpacked with a star is
+            # a tuple / list, not a one-shot iterator): first = P[0]; rest = P[1:] (the same elements; `rest` is only read)
+            if isinstance(st, ast.Assign) and len(st.targets) == 1 and isinstance(st.targets[0], (ast.Tuple, ast.List)) and isinstance(st.value, ast.Attribute) and _is_path(st.value) \
+                    and len(st.targets[0].elts) == 2 and isinstance(st.targets[0].elts[0], ast.Name) and isinstance(st.targets[0].elts[1], ast.Starred) \
+                    and isinstance(st.targets[0].elts[1].value, ast.Name) and binds.get(st.targets[0].elts[1].value.id) == 1 and binds.get(st.targets[0].elts[0].id) == 1:
+                h_, r_ = st.targets[0].elts[0].id, st.targets[0].elts[1].value.id
+                par_ = {}
+                for n_ in ast.walk(fnode):
+                    for c_ in ast.iter_child_nodes(n_):
+                        par_[c_] = n_
+                reads = [x for x in ast.walk(fnode) if isinstance(x, ast.Name) and x.id == r_ and isinstance(x.ctx, ast.Load)]
+                if reads and all((isinstance(par_.get(x), ast.Subscript) and par_[x].value is x and isinstance(par_[x].ctx, ast.Load)) or
+                                 (isinstance(par_.get(x), (ast.For, ast.comprehension)) and par_[x].iter is x) or
+                                 (isinstance(par_.get(x), ast.Call) and U(par_[x].func) in ("zip", "len", "enumerate")) for x in reads):
+                    out.append(ast.copy_location(ast.Assign(targets=[ast.Name(id=h_, ctx=ast.Store())], value=ast.Subscript(value=copy.deepcopy(st.value), slice=ast.Constant(value=0), ctx=ast.Load()), lineno=st.lineno), st))
+                    out.append(ast.copy_location(ast.Assign(targets=[ast.Name(id=r_, ctx=ast.Store())], value=ast.Subscript(value=copy.deepcopy(st.value), slice=ast.Slice(lower=ast.Constant(value=1), upper=None, step=None), ctx=ast.Load()), lineno=st.lineno), st))
+                    changed = True
+                    continue
             if isinstance(st, ast.Assign) and len(st.targets) == 1 and isinstance(st.targets[0], (ast.Tuple, ast.List)) and isinstance(st.value, ast.Name) and st.value.id in listy \
                     and len(st.targets[0].elts) == 2 and isinstance(st.targets[0].elts[0], ast.Name) and isinstance(st.targets[0].elts[1], ast.Starred) \
                     and isinstance(st.targets[0].elts[1].value, ast.Name) and st.value.id not in (st.targets[0].elts[0].id, st.targets[0].elts[1].value.id):
@@ -4419,6 +4687,11 @@ def has_constant_structure(repo, f):
             return True
         if isinstance(n, ast.Call) and U(n.func) in ("functools.reduce", "reduce", "slice"):
             return True
+        # D = {"a": .., "b": ..} read as D["a"]: a dict local with constant keys
+        if isinstance(n, ast.Assign) and len(n.targets) == 1 and isinstance(n.targets[0], ast.Name) and isinstance(n.value, ast.Dict) and n.value.keys and None not in n.value.keys \
+                and all(isinstance(k_, ast.Constant) and isinstance(k_.value, str) for k_ in n.value.keys) \
+                and any(isinstance(x, ast.Subscript) and isinstance(x.value, ast.Name) and x.value.id == n.targets[0].id and isinstance(x.slice, ast.Constant) for x in ast.walk(f.node)):
+            return True
         if isinstance(n, ast.Call) and isinstance(n.func, ast.Name) and n.func.id[:1].isupper() or (isinstance(n, ast.Call) and isinstance(n.func, ast.Name) and n.func.id.startswith("_") and n.func.id[1:2].isupper()):
             from .normalize import record_fields
             if record_fields(repo, f.mod, n.func.id, allow_methods=True) is not None:
@@ -4429,6 +4702,10 @@ def has_constant_structure(repo, f):
                 and isinstance(n.comparators[0], (ast.Name, ast.Attribute)) and _table(repo, f, n.comparators[0]) is not None:
             return True
     return False
+
+
+def _loops_over_generator_expression(fnode):
+    return any(isinstance(x, ast.For) and isinstance(x.iter, ast.GeneratorExp) for x in walk_own(fnode))
 
 
 def _zips_comprehension_locals(fnode):
@@ -4443,7 +4720,8 @@ def partial_evaluate(repo, max_rounds=8):
     report = {}
     counter = [0]
     for q, f in list(repo.funcs.items()):
-        if not has_constant_structure(repo, f) and not _calls_new_helper(repo, f) and q not in getattr(repo, "inlined", {}) and not _zips_comprehension_locals(f.node):
+        if not has_constant_structure(repo, f) and not _calls_new_helper(repo, f) and q not in getattr(repo, "inlined", {}) and not _zips_comprehension_locals(f.node) \
+                and not _loops_over_generator_expression(f.node):
             continue
         steps = []
         for _ in range(max_rounds):
@@ -4457,7 +4735,7 @@ def partial_evaluate(repo, max_rounds=8):
                 steps.append("reduce")
                 from .normalize import _Synonyms
                 f.node = _Synonyms().visit(f.node)          # acc = operator.add(acc, x)  ->  acc = acc + x
-            if steps and loops_over_generator_expressions(f.node, counter):
+            if (steps or _loops_over_generator_expression(f.node)) and loops_over_generator_expressions(f.node, counter):
                 ch = True
                 steps.append("genexp-loops")
             if (steps or q in getattr(repo, "inlined", {}) or _zips_comprehension_locals(f.node)) and loops_over_zipped_comprehensions(f.node, counter):
@@ -4499,7 +4777,7 @@ def partial_evaluate(repo, max_rounds=8):
             if (steps or q in getattr(repo, "inlined", {})) and drop_dead_constant_stores(f.node):
                 ch = True
                 steps.append("dead-stores")
-            if (steps or q in getattr(repo, "inlined", {})) and split_conditional_tuples(f.node, counter):
+            if (steps or q in getattr(repo, "inlined", {})) and split_conditional_tuples(f.node, counter, repo, f.mod):
                 ch = True
                 steps.append("conditional-tuples")
             if (steps or q in getattr(repo, "inlined", {})) and scalarise_conditional_records(repo, f):
